@@ -34,7 +34,7 @@ CHECKS = {
         'that ends in br/return/unreachable), br_table case order and default, select/drop/local.get/set/tee roles, local index to type '
         'resolution, zero-initialised declared locals, declarations before statements and the L0/return epilogue. For every one of the '
         '~190 instructions of the oracle table: in dead code it emits nothing, keeps the stack and consumes exactly the immediates it '
-        'consumes in live code.',
+        'consumes in live code. A dead instruction leaves the label stack unchanged; the branch family also targets if labels from both arms.',
    note='The induction over arbitrary nestings is not mechanised: these are its base and step cases at sampled heights/types '
         '(slot indices are affine in the height). C goto/switch semantics and module validity are assumed.',
    ref='DESIGN.md 4/C03'),
@@ -102,7 +102,7 @@ CHECKS = {
         'function or casts away const from module data; the stateful debug-line cursor reaches workers only under threadCount == 1. The '
         'split loops append each function exactly once to exactly one list before advancing, static only under hash equality with the '
         'consumed reference entry. For about 650 template pairs the pretty and compact forms have the same typed AST and symbol prefixing '
-        'only prefixes callee identifiers; all File/String twin emitters agree on a grid of names/indices/flags. The getopt option string and the option switch agree on which options take an argument (R09.12); the export-section reader records the export name of every defined function, the first one included, which -g consults (R09.13).',
+        'only prefixes callee identifiers; all File/String twin emitters agree on a grid of names/indices/flags. The getopt option string and the option switch agree on which options take an argument (R09.12); the export-section reader records the export name of every defined function, the first one included, which -g consults (R09.13). The static/dynamic split is evaluated on concrete hash-sorted lists: every function lands in exactly one list (R09.3).',
    note='Not decided: byte-identical output and deadlock freedom under every interleaving (schedule-quantified; the rules are the structural '
         'necessary conditions), the file-count arithmetic for all (n, f), -g/-r behaviour beyond these rules, compile-on-its-own of every emitted file.',
    ref='DESIGN.md 4/C09'),
@@ -129,7 +129,7 @@ CHECKS = {
         'guard and (signed) a MIN/-1 guard, every float-to-int conversion sits under a range guard, no runtime access function '
         'dereferences linear memory through a typed pointer. The TU of all templates is accepted by gcc and clang as GNU C89 '
         '(thorough: C99/C11/C17) with implicit declarations and pointer/int mismatches as errors. Import and export names with quotes, '
-        'backslashes, control and non-ASCII bytes are emitted as C string literals that lex back to the same bytes. The function-export table is declared with room for every row and the terminator (R11.14).',
+        'backslashes, control and non-ASCII bytes are emitted as C string literals that lex back to the same bytes. The function-export table is declared with room for every row and the terminator (R11.14). A branch carrying a value to a block or if label moves it into the label\'s result slot (R11.15, shared with C03).',
    note='Same results across compilers/-O levels is argued from absence of these UB classes plus single-assignment template shape; the C '
         'compilers themselves are trusted. Exact trap boundaries of float-to-int are decided in C02. Debug-mode #line paths and __asm__ labels are not covered.',
    ref='DESIGN.md 4/C11'),
@@ -142,7 +142,7 @@ CHECKS = {
         'fd_seek/fd_tell: whence tables of both generations against the host SEEK_* values, u64 result. errno switch: every host E* value '
         'maps to the witx number of the same name. path_open: each oflags/fdflags bit sets the same-named host flag, access mode follows the '
         'rights, the new descriptor is stored as u32. filestat (both generations) and fdstat: (offset, width) of every store and the zero-fill '
-        'size equal the witx struct. wrapPositional restores the saved position on every path and preserves the transfer\'s errno.',
+        'size equal the witx struct. wrapPositional restores the saved position on every path and preserves the transfer\'s errno. Positional transfers with offsets that are negative as off_t fail with EINVAL and transfer nothing.',
    note='POSIX behaviour of the host calls, short transfers and resulting file contents are not decided; host constants come from the build\'s headers.',
    ref='DESIGN.md 4/C12'),
  'C13': dict(
@@ -165,7 +165,7 @@ CHECKS = {
         'coefficient-wise, by a guard of its path (so an off-by-one in either guard is reported with the offending index expression), the '
         'empty path is rejected, absolute paths are copied unchanged, a separator is inserted iff needed; descriptor paths satisfy 0 < len < PATH_MAX. '
         'fd_readdir, for {stream open, closed} x {cookie 0, unknown}: the first readdir() is always preceded by opendir/seekdir/rewinddir; dirent '
-        'fields are stored at the witx offsets with telldir/inode/strlen values, the name follows the record, bufused = buflen signals a full buffer. Every path import is additionally evaluated with concrete resolved paths (root, doubled and trailing separators): the bytes handed to the host call are the resolved path, for rmdir/mkdir up to trailing separators (R14.12). The errno table has rows for the errors POSIX requires of the named operations (ENOTEMPTY, ELOOP, ENAMETOOLONG, EOVERFLOW).',
+        'fields are stored at the witx offsets with telldir/inode/strlen values, the name follows the record, bufused = buflen signals a full buffer. Every path import is additionally evaluated with concrete resolved paths (root, doubled and trailing separators): the bytes handed to the host call are the resolved path, for rmdir/mkdir up to trailing separators (R14.12). The errno table has rows for the errors POSIX requires of the named operations (ENOTEMPTY, ELOOP, ENAMETOOLONG, EOVERFLOW). With the host call failing, every path import returns exactly the witx number of errno for a family of errno values (R14.13).',
    note='Host directory semantics (stable telldir cookies), completeness of a listing across calls and symlink-follow flags are not decided. '
         'The unbounded strcat in the lstat fallback of fd_readdir is recorded as a note (not replayable here).',
    ref='DESIGN.md 4/C14'),
@@ -177,7 +177,7 @@ CHECKS = {
         '64 bits as u64. Every getentropy() length is bounded by 256 through a guard of its path and the chunks add up to the request. '
         'proc_exit reaches exit(code). thread-spawn: counter starts at 1, one atomic fetch-add, negative result and no allocation without the '
         'wasi_thread_start export, start record = {newChild(instance), arg, id, export}, the thread body reads all fields before the single '
-        'free and calls start exactly once. A thread\'s instance takes the parent\'s descriptor of every module-defined shared memory, whatever its position in the memory index space (R15.6).',
+        'free and calls start exactly once. A thread\'s instance takes the parent\'s descriptor of every module-defined shared memory, whatever its position in the memory index space (R15.6). Unknown clock ids include values whose low 8 / 16 bits are a known id.',
    note='Clock monotonicity, randomness quality, that exit() terminates and thread scheduling are not decided; the /dev/random fallback '
         '(HAS_GETENTROPY=0 builds) is not analysed in the quick tier.',
    ref='DESIGN.md 4/C15'),
